@@ -107,7 +107,11 @@ def inject_path(g, spec):
     out = []
     if isinstance(spec, dict) and len(spec) == 1:
         (k, v), = spec.items()
-        out.append(("unknown suffix", {k + ".middle": v} if k.count(".") < 2 else {"path.middle": v}))
+        # an unknown suffix: not a method name, and not an internal name either (enum members, attributes, dunder names)
+        bad = g.r.choice(["middle", "none", "NONE", "None", "datum", "multi", "value", "simplify", "parts", "get_data", "keys",
+                          "__class__", "copy", "is_concrete", "datum_type", "multi_type", "container", "0", "", " first"])
+        out.append(("unknown suffix", {k + "." + bad: v} if k.count(".") < 2 else {"path." + bad: v}))
+        out.append(("unknown suffix", {"path." + bad + ".first": v}))
         out.append(("several keys", dict(spec, other=[1])))
         out.append(("not a path key", {"route": v}))
         out.append(("too many suffixes", {"path.first.length.dtype": v}))
